@@ -158,6 +158,16 @@ def network_formulas(ctx, rid):
                 ("call", "shunting_duration_between_activities_if_dead_head_trip", [ANY, side(2), side(3)])),
                "turnaround with a dead-head trip = travel_time(end_location(n1), start_location(n2)) + dead-head shunting")
     same_place_test(ctx, rid)
+    key = N("shunting_duration_between_activities_if_dead_head_trip")
+    o, fd = ctx.require_fn("%s.dead-head-shunting.sum" % rid, "T12", key, "dead-head shunting = shunting before the trip + shunting after it")
+    if fd is not None:
+        e = shape.normalise(shape.expr(fd, shape.Operand({"k": "copy", "pl": {"l": 0, "p": []}})))
+        if e[0] == "bin" and e[1] == "Add":
+            ctx.ok(o, shape.show(e)[:120])
+        elif e[0] == "bin" and e[1] in ("Sub", "Max", "Min", "Mul"):
+            ctx.bad(o, "the two shunting times are combined as %s" % shape.show(e)[:120])
+        else:
+            ctx.undecided(o, "returned expression not recognised: %s" % shape.show(e)[:80])
     shape_rule(ctx, "%s.duration.formula" % rid, ND("duration"),
                ("bin", "Sub", ("call", "Node::end_time", [side(1)]), ("call", "Node::start_time", [side(1)])),
                "duration of an activity = end_time - start_time", "useful duration and all duration-based costs are wrong")
@@ -734,3 +744,81 @@ def three_opt_indices(ctx, rid):
         ctx.ok(o, "%d inner ranges start at index + 1" % n)
     else:
         ctx.undecided(o, "inner ranges not recognised")
+
+
+def flow_network_details(ctx, rid):
+    """direction, bounds and costs of the arcs between the split nodes (left = tuple component 0, right = component 1)"""
+    from . import flownet
+    fd, edges = flownet.edge_sites(ctx)
+    if fd is None:
+        return
+    SFVT = flownet.SFVT
+    adds = [c for c in fd.body.calls() if (c.callee or "").endswith("::add_edge")]
+
+    def add_edge_of(e):
+        # the add_edge call whose result is inserted together with this label: the closest one before it
+        before = [c for c in adds if fd.cfg.instr_dominates(c, e.instr)]
+        return max(before, key=lambda c: (int(c.line().split(":")[-1] or 0))) if before else None
+    want = {"connection": (1, 0, "a connection leaves the RIGHT copy of the predecessor and enters the LEFT copy of the node"),
+            "depot": (0, 1, "a depot's own arc runs from its left to its right copy")}
+    for role, (wa, wb, text) in want.items():
+        es = [e for e in edges if e.role == role]
+        o = ctx.ob("%s.%s-arc-direction" % (rid, role), "T12", SFVT, text)
+        if len(es) != 1 or add_edge_of(es[0]) is None:
+            ctx.undecided(o, "arc construction not recognised")
+            continue
+        c = add_edge_of(es[0])
+        o.loc = c.line()
+        a = shape.expr(fd, c.args[1])
+        b = shape.expr(fd, c.args[2])
+        comp = lambda x: int(x[1].split(".")[1]) if x[0] == "call" and x[1].startswith("tuple.") else None
+        ca, cb = comp(a), comp(b)
+        if ca is None or cb is None:
+            ctx.undecided(o, "end points are not components of the (left, right) pairs")
+        elif (ca, cb) == (wa, wb):
+            ctx.ok(o, "component %d -> component %d" % (ca, cb))
+        else:
+            ctx.bad(o, "the arc at %s runs from component %d to component %d: flow cannot pass through the split nodes in the direction of time, "
+                    "the circulation is infeasible or describes other tours" % (c.line(), ca, cb), loc=c.line())
+    # decoding: the tour that is continued is looked up under the PREDECESSOR (the tail of the in-arc), not under the node itself
+    o = ctx.ob("%s.decoding-continues-the-predecessors-tour" % rid, "T12", SFVT,
+               "a unit of flow over an in-arc continues a tour that ended at the arc's tail")
+    gm = [c for f in [fd] for c in f.body.calls() if (c.callee or "").endswith("HashMap::get_mut") and any("Vec<usize>" in t for t in c.targs)]
+    if len(gm) != 1:
+        ctx.undecided(o, "look-up of the tour to continue not recognised")
+    else:
+        ke = shape.expr(fd, gm[0].args[1])
+        cs = shape.calls_of(ke)
+        from_inarcs = any(x.endswith("::flatten") or x.endswith("::filter_map") or "inedges" in x for x in cs)
+        o.loc = gm[0].line()
+        if from_inarcs:
+            ctx.ok(o, "key <- the in-arcs of the node")
+        elif ke[0] != "?" and cs:
+            ctx.bad(o, "the tour to continue is looked up under %s, which does not come from the in-arcs: tours are continued at the wrong "
+                    "activity (or `pred not found` panics)" % shape.show(ke)[:120], loc=gm[0].line())
+        else:
+            ctx.undecided(o, "key provenance not recognised")
+    con = [e for e in edges if e.role == "connection"]
+    if len(con) == 1:
+        e = con[0]
+        o = ctx.ob("%s.connection-bound-is-a-max" % rid, "T12", SFVT,
+                   "a connection can carry the LARGER of the formation count and the largest allotted track count")
+        ub = shape.normalise(shape.expr(fd, e.fields["upper_bound"][0]))
+        cs = shape.calls_of(ub)
+        has_min = "op:Min" in cs or any(x.endswith("Iterator::min") for x in cs)
+        has_max = "op:Max" in cs and any(x.endswith("Iterator::max") for x in cs)
+        if has_min:
+            ctx.bad(o, "the bound is %s: with a min the forced flow of a maintenance slot with more tracks than the formation count does not fit and "
+                    "network_simplex(..).unwrap() panics" % shape.show(ub)[:160], loc=e.instr.line())
+        elif has_max:
+            ctx.ok(o, shape.show(ub)[:160])
+        else:
+            ctx.undecided(o, "bound not recognised: %s" % shape.show(ub)[:120])
+        o = ctx.ob("%s.connection-cost-is-a-sum" % rid, "T12", SFVT, "connection cost = dead-head cost + idle cost")
+        ce = shape.normalise(shape.expr(fd, e.fields["cost"][0]))
+        if ce[0] == "bin" and ce[1] == "Add":
+            ctx.ok(o, shape.show(ce)[:160])
+        elif ce[0] == "bin" and ce[1] == "Sub":
+            ctx.bad(o, "the idle cost is subtracted: %s" % shape.show(ce)[:160], loc=e.instr.line())
+        else:
+            ctx.undecided(o, "cost expression not recognised: %s" % shape.show(ce)[:100])
